@@ -10,7 +10,7 @@ SR=$1; VW=$2; shift 2
 MUTSRC=${MUTSRC:-/tmp/mut2/out}
 PROPS="$@"
 [ -z "$PROPS" ] && PROPS=$(cd $MUTSRC && ls -d C??/h 2>/dev/null | cut -d/ -f1)
-OUT=/verif/seeded/harmless
+OUT=${HOUT:-/verif/seeded/harmless}
 mkdir -p $OUT
 for prop in $PROPS; do
   src=$MUTSRC/$prop/h
